@@ -208,6 +208,7 @@ EXPORT char *_stpncpy_s_chk(char *restrict dest, rsize_t dmax,
                  * Copying truncated to slen chars.  Note that the TR says to
                  * copy slen chars plus the null char.  We null the slack.
                  */
+                *dest = '\0';
                 goto eok;
             }
 
@@ -243,6 +244,7 @@ EXPORT char *_stpncpy_s_chk(char *restrict dest, rsize_t dmax,
                  * Copying truncated to slen chars.  Note that the TR says to
                  * copy slen chars plus the null char.  We null the slack.
                  */
+                *dest = '\0';
                 goto eok;
             }
 
